@@ -18,6 +18,9 @@
 (* step prints <<"AT", tid, l, 1>> (a deviation marker) and the rest of    *)
 (* the history is checked from the observed (deviating) state on.  A       *)
 (* non-inverse state can arise in no other way.                            *)
+(* Every event also carries the projection of the retained SOURCE of the   *)
+(* last copy() / reverse_copy() / pickle round trip (slive, sdb, srdb):    *)
+(* it must stay exactly what the collection was when it was copied.        *)
 (* Batched: <<"ACCEPTED", tid>> for every trace explained completely.      *)
 (***************************************************************************)
 EXTENDS Debtags, IOUtils, TLCExt
@@ -98,9 +101,12 @@ QueriesOK(e, pre) ==
    /\ NoDupKeys(e.itpt) /\ ObsFn(e.itpt) = pre.db
    /\ NoDupKeys(e.ittp) /\ ObsFn(e.ittp) = pre.rdb
 
+CopyOps == {"copy", "reverse_copy", "pickle"}
+
 TInit == /\ tid \in 1..Len(Traces)
          /\ l = 1
          /\ P = {} /\ T = {} /\ R = {} /\ db = NoDict /\ rdb = NoDict
+         /\ sabs = AEmpty /\ src = NoSrc /\ al = NoAlias(IEmpty)
 
 TStep == /\ l <= Len(Tr.events)
          /\ LET e   == Tr.events[l]
@@ -118,6 +124,13 @@ TStep == /\ l <= Len(Tr.events)
                                         (InverseOf(obs) /\ AbsOf(obs) = RefNext(e, AbsOf(pre)))
                                   /\ (viaDev => PrintT(<<"AT", tid, l, 1>>))
                /\ SetImpl(obs) /\ SetAbs(AbsOf(obs))
+               \* the source of a copy is independent of the copy: nothing done later changes it
+               /\ src' = IF e.op \in CopyOps /\ e.exc = ""
+                         THEN [live |-> TRUE, age |-> 0, db |-> pre.db, rdb |-> pre.rdb] ELSE src
+               /\ e.slive = src'.live
+               /\ src'.live => /\ NoDupKeys(e.sdb) /\ NoDupKeys(e.srdb)
+                               /\ ObsFn(e.sdb) = src'.db /\ ObsFn(e.srdb) = src'.rdb
+               /\ sabs' = AbsOf(src') /\ al' = al
          /\ l' = l + 1 /\ UNCHANGED tid
          /\ (Diag => PrintT(<<"AT", tid, l, 0>>))
          /\ (l' = Len(Tr.events) + 1 => PrintT(<<"ACCEPTED", tid>>))
